@@ -453,6 +453,22 @@ func (e *engC14) apply(op Op) (executed bool, observable, msg string) {
 		if x3 != a || y3 != b || z3 != c {
 			return bad("result", "NewTuple3/Destr3 are not inverse on (%d,%q,%v)", a, b, c)
 		}
+		// components of one and the same type: a swap cannot hide behind the type checker
+		same := frt.NewTuple2(a, a+1)
+		p, q := frt.Destr2(same)
+		if p != a || q != a+1 || frt.Fst(same) != a || frt.Snd(same) != a+1 {
+			return bad("result", "tuple of two ints (%d,%d) comes back as (%d,%d), Fst %d, Snd %d", a, a+1, p, q, frt.Fst(same), frt.Snd(same))
+		}
+		p3, q3, r3 := frt.Destr3(frt.NewTuple3(a, a+1, a+2))
+		if p3 != a || q3 != a+1 || r3 != a+2 {
+			return bad("result", "tuple of three ints comes back as (%d,%d,%d)", p3, q3, r3)
+		}
+		if got := frt.Sprintf2("%d<%d", a, a+1); got != strconv.Itoa(a)+"<"+strconv.Itoa(a+1) {
+			return bad("format", "frt.Sprintf2(\"%%d<%%d\", %d, %d) = %q", a, a+1, got)
+		}
+		if got := frt.SInterP("%s|%s|%s", int8(a%100), b, uint64(a)); got != strconv.Itoa(a%100)+"|"+b+"|"+strconv.Itoa(a) {
+			return bad("format", "frt.SInterP with three holes of mixed kinds = %q", got)
+		}
 	case "frt.SInterP":
 		fv, ok := fmtValues[op.Fn]
 		if !ok {
@@ -569,7 +585,7 @@ func runC14(h *History, st *Stats) *Violation {
 
 // ---- generation ----
 
-var strPool = []string{"", "a", "ab", "abc", ",", "a,b", ",a,", "a,,b", "aa", "日本", "x y", "%d", "ab,ab", ",,"}
+var strPool = []string{"", "a", "ab", "abc", ",", "a,b", ",a,", "a,,b", "aa", "aaaa", "aaa", "日本", "日本語,日本", "é,è", "x y", "%d", "ab,ab", ",,", "ababab"}
 
 func genHistoryC14(r *common.Rng, seed int64, run int, config string) *History {
 	h := &History{V: 1, Property: "C14", Seed: seed, Run: run, Config: config}
@@ -661,7 +677,7 @@ func genHistoryC14(r *common.Rng, seed int64, run int, config string) *History {
 		case 5:
 			h.Ops = append(h.Ops, Op{F: "strings.EncloseWith", Args: []string{s(), s(), s()}})
 		case 6, 7:
-			h.Ops = append(h.Ops, Op{F: "strings.Split", Args: []string{r.Pick(",", "a", "ab", ",,", " ", ""), s()}})
+			h.Ops = append(h.Ops, Op{F: "strings.Split", Args: []string{r.Pick(",", "a", "ab", ",,", " ", "", "aa", "日"), s()}})
 		case 8:
 			h.Ops = append(h.Ops, Op{F: "strings.SplitN", Args: []string{fmt.Sprint(r.Range(-1, 4)), r.Pick(",", "a", " ", "", "ab"), s()}})
 		case 9:
